@@ -35,7 +35,7 @@ def gen_case(rng, with_phrases):
     vocab = rng.choice([3, 4, 6])
     fields = []
     for f in range(nf):
-        drop = (f > 0 and rng.random() < 0.35)
+        drop = rng.random() < (0.35 if f > 0 else 0.06)       # (the first field rarely drops tokens too)
         docs = []
         for _ in range(nrows):
             ln = rng.choice([0, rng.randint(1, 8), rng.randint(4, 25)])
@@ -76,8 +76,8 @@ def view_docs(fd):
 
 
 def valid(case):
-    # the first field never drops tokens, so the query always has a term somewhere; a later field may have none
-    return len(field_terms(case, 0)) >= 1
+    # any field, even every field, may be left without a query term (stop-word-only queries): such a field scores 0
+    return True
 
 
 def gen(rng, tier, with_phrases=None):
